@@ -23,12 +23,12 @@ import (
 )
 
 type c05ctx struct {
-	rt                         *rapid.T
-	w                          *hlsim.World
-	req, admin, obs, victim    *hlsim.Conn
-	reqID, adminID, victimID   int
-	chatID                     []byte
-	bits                       hlref.Access
+	rt                       *rapid.T
+	w                        *hlsim.World
+	req, admin, obs, victim  *hlsim.Conn
+	reqID, adminID, victimID int
+	chatID                   []byte
+	bits                     hlref.Access
 }
 
 type c05cell struct {
@@ -68,7 +68,7 @@ func hasType(ts []hlref.Tran, typ int) bool {
 	return false
 }
 
-func fld(id int, d []byte) hlref.Field { return hlref.F(id, d) }
+func fld(id int, d []byte) hlref.Field  { return hlref.F(id, d) }
 func sfld(id int, s string) hlref.Field { return hlref.F(id, []byte(s)) }
 
 func (x *c05ctx) nameOf(id int) string {
@@ -132,7 +132,9 @@ func diskCell(name string, need []int, typ int, fields func(x *c05ctx) []hlref.F
 	}}
 }
 
-func newsChanged(x *c05ctx, needle string) bool { return fileHas(filepath.Join(x.w.Cfg, "ThreadedNews.yaml"), needle) }
+func newsChanged(x *c05ctx, needle string) bool {
+	return fileHas(filepath.Join(x.w.Cfg, "ThreadedNews.yaml"), needle)
+}
 
 var c05cells = []c05cell{
 	{name: "chat-send", effects: [][]int{{hlref.PrivSendChat}}, noReply: true, run: func(x *c05ctx) (*hlref.Tran, []bool) {
@@ -145,16 +147,24 @@ var c05cells = []c05cell{
 	}},
 	replyCell("get-file-info", nil, hlref.TranGetFileInfo, hlref.FFileName, func(x *c05ctx) []hlref.Field { return []hlref.Field{sfld(hlref.FFileName, "f.txt")} }),
 	diskCell("set-comment:file", []int{hlref.PrivSetFileComment}, hlref.TranSetFileInfo,
-		func(x *c05ctx) []hlref.Field { return []hlref.Field{sfld(hlref.FFileName, "f.txt"), sfld(hlref.FFileComment, "cmt")} },
+		func(x *c05ctx) []hlref.Field {
+			return []hlref.Field{sfld(hlref.FFileName, "f.txt"), sfld(hlref.FFileComment, "cmt")}
+		},
 		func(x *c05ctx) bool { return fileHas(filepath.Join(x.w.FileRoot, ".info_f.txt"), "cmt") }),
 	diskCell("set-comment:folder", []int{hlref.PrivSetFolderComment}, hlref.TranSetFileInfo,
-		func(x *c05ctx) []hlref.Field { return []hlref.Field{sfld(hlref.FFileName, "dir"), sfld(hlref.FFileComment, "cmt")} },
+		func(x *c05ctx) []hlref.Field {
+			return []hlref.Field{sfld(hlref.FFileName, "dir"), sfld(hlref.FFileComment, "cmt")}
+		},
 		func(x *c05ctx) bool { return fileHas(filepath.Join(x.w.FileRoot, ".info_dir"), "cmt") }),
 	diskCell("rename:file", []int{hlref.PrivRenameFile}, hlref.TranSetFileInfo,
-		func(x *c05ctx) []hlref.Field { return []hlref.Field{sfld(hlref.FFileName, "f.txt"), sfld(hlref.FFileNewName, "g.txt")} },
+		func(x *c05ctx) []hlref.Field {
+			return []hlref.Field{sfld(hlref.FFileName, "f.txt"), sfld(hlref.FFileNewName, "g.txt")}
+		},
 		func(x *c05ctx) bool { return exists(x.w.FileRoot, "g.txt") && !exists(x.w.FileRoot, "f.txt") }),
 	diskCell("rename:folder", []int{hlref.PrivRenameFolder}, hlref.TranSetFileInfo,
-		func(x *c05ctx) []hlref.Field { return []hlref.Field{sfld(hlref.FFileName, "dir"), sfld(hlref.FFileNewName, "dir2")} },
+		func(x *c05ctx) []hlref.Field {
+			return []hlref.Field{sfld(hlref.FFileName, "dir"), sfld(hlref.FFileNewName, "dir2")}
+		},
 		func(x *c05ctx) bool { return exists(x.w.FileRoot, "dir2") && !exists(x.w.FileRoot, "dir") }),
 	{name: "comment+rename:file", effects: [][]int{{hlref.PrivSetFileComment}, {hlref.PrivRenameFile}}, run: func(x *c05ctx) (*hlref.Tran, []bool) {
 		r := x.req.Request(hlref.TranSetFileInfo, sfld(hlref.FFileName, "f.txt"), sfld(hlref.FFileComment, "cmt"), sfld(hlref.FFileNewName, "g.txt"))
@@ -173,22 +183,32 @@ var c05cells = []c05cell{
 		func(x *c05ctx) []hlref.Field { return []hlref.Field{sfld(hlref.FFileName, "dir")} },
 		func(x *c05ctx) bool { return !exists(x.w.FileRoot, "dir") }),
 	diskCell("delete:file-in-folder", []int{hlref.PrivDeleteFile}, hlref.TranDeleteFile,
-		func(x *c05ctx) []hlref.Field { return []hlref.Field{sfld(hlref.FFileName, "inner.txt"), fld(hlref.FFilePath, p1("dir"))} },
+		func(x *c05ctx) []hlref.Field {
+			return []hlref.Field{sfld(hlref.FFileName, "inner.txt"), fld(hlref.FFilePath, p1("dir"))}
+		},
 		func(x *c05ctx) bool { return !exists(x.w.FileRoot, "dir", "inner.txt") }),
 	diskCell("move:file", []int{hlref.PrivMoveFile}, hlref.TranMoveFile,
-		func(x *c05ctx) []hlref.Field { return []hlref.Field{sfld(hlref.FFileName, "f.txt"), fld(hlref.FFileNewPath, p1("other"))} },
+		func(x *c05ctx) []hlref.Field {
+			return []hlref.Field{sfld(hlref.FFileName, "f.txt"), fld(hlref.FFileNewPath, p1("other"))}
+		},
 		func(x *c05ctx) bool { return exists(x.w.FileRoot, "other", "f.txt") && !exists(x.w.FileRoot, "f.txt") }),
 	diskCell("move:folder", []int{hlref.PrivMoveFolder}, hlref.TranMoveFile,
-		func(x *c05ctx) []hlref.Field { return []hlref.Field{sfld(hlref.FFileName, "dir"), fld(hlref.FFileNewPath, p1("other"))} },
+		func(x *c05ctx) []hlref.Field {
+			return []hlref.Field{sfld(hlref.FFileName, "dir"), fld(hlref.FFileNewPath, p1("other"))}
+		},
 		func(x *c05ctx) bool { return exists(x.w.FileRoot, "other", "dir") && !exists(x.w.FileRoot, "dir") }),
 	diskCell("new-folder", []int{hlref.PrivCreateFolder}, hlref.TranNewFolder,
 		func(x *c05ctx) []hlref.Field { return []hlref.Field{sfld(hlref.FFileName, "nf")} },
 		func(x *c05ctx) bool { return exists(x.w.FileRoot, "nf") }),
 	diskCell("new-folder:nested", []int{hlref.PrivCreateFolder}, hlref.TranNewFolder,
-		func(x *c05ctx) []hlref.Field { return []hlref.Field{sfld(hlref.FFileName, "nf"), fld(hlref.FFilePath, p1("dir"))} },
+		func(x *c05ctx) []hlref.Field {
+			return []hlref.Field{sfld(hlref.FFileName, "nf"), fld(hlref.FFilePath, p1("dir"))}
+		},
 		func(x *c05ctx) bool { return exists(x.w.FileRoot, "dir", "nf") }),
 	diskCell("make-alias", []int{hlref.PrivMakeAlias}, hlref.TranMakeFileAlias,
-		func(x *c05ctx) []hlref.Field { return []hlref.Field{sfld(hlref.FFileName, "f.txt"), fld(hlref.FFileNewPath, p1("other"))} },
+		func(x *c05ctx) []hlref.Field {
+			return []hlref.Field{sfld(hlref.FFileName, "f.txt"), fld(hlref.FFileNewPath, p1("other"))}
+		},
 		func(x *c05ctx) bool { return exists(x.w.FileRoot, "other", "f.txt") }),
 	replyCell("download-file", []int{hlref.PrivDownloadFile}, hlref.TranDownloadFile, hlref.FRefNum, func(x *c05ctx) []hlref.Field { return []hlref.Field{sfld(hlref.FFileName, "f.txt")} }),
 	replyCell("download-file:in-dropbox", []int{hlref.PrivDownloadFile}, hlref.TranDownloadFile, hlref.FRefNum, func(x *c05ctx) []hlref.Field {
@@ -247,7 +267,9 @@ var c05cells = []c05cell{
 		},
 		func(x *c05ctx) bool { return exists(x.w.UsersDir, "nu.yaml") }),
 	diskCell("delete-user", []int{hlref.PrivDeleteUser}, hlref.TranDeleteUser,
-		func(x *c05ctx) []hlref.Field { return []hlref.Field{fld(hlref.FUserLogin, hlref.Obfuscate([]byte("spare")))} },
+		func(x *c05ctx) []hlref.Field {
+			return []hlref.Field{fld(hlref.FUserLogin, hlref.Obfuscate([]byte("spare")))}
+		},
 		func(x *c05ctx) bool { return !exists(x.w.UsersDir, "spare.yaml") }),
 	diskCell("set-user", []int{hlref.PrivModifyUser}, hlref.TranSetUser,
 		func(x *c05ctx) []hlref.Field {
@@ -268,7 +290,9 @@ var c05cells = []c05cell{
 		func(x *c05ctx) []hlref.Field {
 			return []hlref.Field{fld(hlref.FData, subFields(fld(hlref.FData, hlref.Obfuscate([]byte("spare"))), fld(hlref.FUserLogin, hlref.Obfuscate([]byte("spare2"))), sfld(hlref.FUserName, "Spare"), fld(hlref.FUserPassword, []byte{0}), fld(hlref.FUserAccess, zeroAccess)))}
 		},
-		func(x *c05ctx) bool { return exists(x.w.UsersDir, "spare2.yaml") && !exists(x.w.UsersDir, "spare.yaml") }),
+		func(x *c05ctx) bool {
+			return exists(x.w.UsersDir, "spare2.yaml") && !exists(x.w.UsersDir, "spare.yaml")
+		}),
 	diskCell("update-user:delete", []int{hlref.PrivDeleteUser}, hlref.TranUpdateUser,
 		func(x *c05ctx) []hlref.Field {
 			return []hlref.Field{fld(hlref.FData, subFields(fld(hlref.FData, hlref.Obfuscate([]byte("spare")))))}
@@ -303,7 +327,9 @@ var c05cells = []c05cell{
 		},
 		func(x *c05ctx) bool { return newsChanged(x, "fresh-title") }),
 	diskCell("news-delete-article", []int{hlref.PrivNewsDeleteArt}, hlref.TranDelNewsArt,
-		func(x *c05ctx) []hlref.Field { return []hlref.Field{fld(hlref.FNewsPath, p1("Cat")), fld(hlref.FNewsArtID, hlref.BE32(1))} },
+		func(x *c05ctx) []hlref.Field {
+			return []hlref.Field{fld(hlref.FNewsPath, p1("Cat")), fld(hlref.FNewsArtID, hlref.BE32(1))}
+		},
 		func(x *c05ctx) bool { return !newsChanged(x, "seed-article") }),
 	diskCell("news-new-category", []int{hlref.PrivNewsCreateCat}, hlref.TranNewNewsCat,
 		func(x *c05ctx) []hlref.Field { return []hlref.Field{sfld(hlref.FNewsCatName, "FreshCat")} },
